@@ -27,6 +27,9 @@ type c02Workload struct {
 	Tree  vk.Tree
 	Cfg   vk.XferCfg
 	Stats []vk.StreamStat // max per-stream byte counts over the recording runs
+	// OthersOnly (quick tier): only the non-positional fault family (source
+	// changes, obstructed output paths) is generated for this workload
+	OthersOnly bool
 }
 
 type c02Case struct {
@@ -49,6 +52,9 @@ func c02Workloads() []*c02Workload {
 		mk("w1chunk", 1, 1, vk.Entry{Rel: "one.bin", Size: 10}),
 		mk("wzero", 3, 1, vk.Entry{Rel: "x.bin", Size: 20}, vk.Entry{Rel: "z.bin", Size: 0}),
 		mk("wmulti", 3, 2, vk.Entry{Rel: "m.bin", Size: 70}, vk.Entry{Rel: "n.bin", Size: 17}),
+		// directories of every kind: with a file below, empty, empty below an otherwise empty parent
+		mk("wdirs", 2, 1, vk.Entry{Rel: "top.bin", Size: 20}, vk.Entry{Rel: "sub", Dir: true}, vk.Entry{Rel: "sub/f.bin", Size: 17},
+			vk.Entry{Rel: "logs", Dir: true}, vk.Entry{Rel: "d1", Dir: true}, vk.Entry{Rel: "d1/d2", Dir: true}),
 	}
 }
 
@@ -147,6 +153,19 @@ func runC02Case(e *Env, lp *vk.ListenerPool, w *c02Workload, c c02Case) c02Outco
 			_ = os.WriteFile(filepath.Join(outDir, "srcroot"), []byte("x"), 0644)
 			otherFired = true
 		}
+	}
+	// per-entry obstructions exist before the session starts (the receiver
+	// creates the directories as soon as it has the manifest)
+	switch {
+	case strings.HasPrefix(c.Other, "obstruct-file-for-dir@"), strings.HasPrefix(c.Other, "obstruct-file-for-emptydir@"):
+		// a regular file sits where a directory of the tree must be created
+		rel := c.Other[strings.IndexByte(c.Other, '@')+1:]
+		p := filepath.Join(outDir, "srcroot", filepath.FromSlash(rel))
+		_ = os.MkdirAll(filepath.Dir(p), 0755)
+		otherFired = os.WriteFile(p, []byte("x"), 0644) == nil
+	case strings.HasPrefix(c.Other, "obstruct-dir-for-file@"):
+		rel := c.Other[strings.IndexByte(c.Other, '@')+1:]
+		otherFired = os.MkdirAll(filepath.Join(outDir, "srcroot", filepath.FromSlash(rel)), 0755) == nil
 	}
 	res := vk.RunTransfer(context.Background(), cfg, lp, src, outDir)
 	out.Res = res
@@ -306,7 +325,14 @@ func runC02(e *Env) {
 	step := int64(e.Pick(9, 1))
 	wls := c02Workloads()
 	if !e.Thorough() {
-		wls = wls[:3]
+		all := wls
+		wls = all[:3]
+		for _, w := range all[3:] {
+			if w.Name == "wdirs" {
+				w.OthersOnly = true
+				wls = append(wls, w)
+			}
+		}
 	}
 	r := vk.NewRng(e.Seed ^ vk.HashStr("c02"+e.Tier))
 	// recording runs
@@ -358,7 +384,11 @@ func runC02(e *Env) {
 	seed0 := int64(r.Intn(int(step)))
 	for _, w := range wls {
 		byName[w.Name] = w
-		for si, st := range w.Stats {
+		stats := w.Stats
+		if w.OthersOnly {
+			stats = nil
+		}
+		for si, st := range stats {
 			for _, dir := range []string{"w", "r"} {
 				n := st.W
 				if dir == "r" {
@@ -383,7 +413,7 @@ func runC02(e *Env) {
 			}
 		}
 		fstep := int64(e.Pick(3, 1))
-		for si := 1; si < len(w.Stats); si++ {
+		for si := 1; si < len(stats); si++ {
 			for fr := 0; fr < totalChunks; fr++ {
 				for off := int64(r.Intn(int(fstep))); off < 16; off += fstep {
 					add(c02Case{W: w.Name, Gate: "none", Fault: &vk.Fault{Stream: si, Dir: "w", Kind: "frameflip", Frame: fr, Field: "payload", Offset: off, Bit: uint(r.Intn(8))}})
@@ -393,7 +423,26 @@ func runC02(e *Env) {
 				}
 			}
 		}
-		for _, o := range []string{"src-shrink@0", "src-remove@0", "obstruct-dir-for-file", "obstruct-file-for-dir"} {
+		others := []string{"src-shrink@0", "src-remove@0", "obstruct-dir-for-file", "obstruct-file-for-dir"}
+		// every entry of the tree obstructed by the other kind of file-system object
+		for _, en := range w.Tree.Entries {
+			if !en.Dir {
+				others = append(others, "obstruct-dir-for-file@"+en.Rel)
+				continue
+			}
+			empty := true
+			for _, o := range w.Tree.Entries {
+				if !o.Dir && strings.HasPrefix(o.Rel, en.Rel+"/") {
+					empty = false
+				}
+			}
+			if empty {
+				others = append(others, "obstruct-file-for-emptydir@"+en.Rel)
+			} else {
+				others = append(others, "obstruct-file-for-dir@"+en.Rel)
+			}
+		}
+		for _, o := range others {
 			for rep := 0; rep < e.Pick(2, 6); rep++ {
 				add(c02Case{W: w.Name, Gate: "none", Other: o, Rep: rep})
 			}
